@@ -103,6 +103,19 @@ def menu_fn(w):
     return m
 
 
+# canonically equivalent spellings are different identifiers: a call on the one that was never stored is a call on an
+# unknown pid, whatever is stored under the other
+NORM_ARGS = dict(pids=["caf\u00e9", "cafe\u0301"], contents=[C_ONE, C_MULTI], formats=[None], sym_dirs=False)
+
+
+def norm_menu(w):
+    m = []
+    for i in range(w.NP):
+        m += [step.Delete(i), step.Retrieve(i), step.HexDigest(i, "SHA-1", "sha1"), step.RetrieveMeta(i, None),
+              step.DeleteMeta(i, None, all_docs=True)]
+    return m
+
+
 def om(w):
     import hashlib
     c = w.contents[0]
@@ -114,13 +127,16 @@ def main(tier, replay_payload=None):
     w_args = universe(tier)
     from props import C17_xh
     kf = lambda: C17_xh.kernels(tier)
+    parts = dict(main=(w_args, menu_fn), norm=(NORM_ARGS, norm_menu))
     if replay_payload is not None:
-        return make_replayer(w_args, menu_fn, kf)(replay_payload)
+        return make_multi_replayer(parts, kf)(replay_payload)
     run = report.Run("C17", tier, technique="pathsym inductive step over an invalid-argument grammar (no mutating "
                      "operation in the trace, post = pre by z3) + CrossHair lemmas on the argument checkers")
-    run.replayer = make_replayer(w_args, menu_fn, kf)
+    run.replayer = make_multi_replayer(parts, kf)
     res = step.explore_steps(w_args, menu_fn)
     collect(run, res, MINE, w_args, menu_fn)
+    collect(run, step.explore_steps(NORM_ARGS, norm_menu), MINE | {"other-pid-references-changed"}, NORM_ARGS, norm_menu,
+            part="norm")
     run.functions = loader.function_lines(loader.load(), API_FUNCS + [
         "FileHashStore._check_string", "FileHashStore._check_integer", "FileHashStore._check_arg_data",
         "FileHashStore._check_arg_algorithms_and_checksum", "FileHashStore._check_arg_format_id",
